@@ -27,7 +27,38 @@ class State:
     tag = "direct"      # "direct": called by the workload; "internal": reached through higher-level library routines
 
 
+_DOM_CACHE = {}
+_PARTS_CACHE = {}
+
+
+def _parts(out):
+    key = tuple(out)
+    P = _PARTS_CACHE.get(key)
+    if P is None:
+        if len(_PARTS_CACHE) > 64:
+            _PARTS_CACHE.clear()
+        P = _PARTS_CACHE[key] = G.Parts(out)
+    return P
+
+
 def _dom(A, need_binary_or_dag=True):
+    """Memoised on the matrix *content* (bytes), never on its identity: the library hands the same matrix to the relation
+    functions thousands of times inside one high-level call."""
+    if not isinstance(A, np.ndarray) or A.ndim != 2 or A.dtype == object:
+        return _dom_uncached(A, need_binary_or_dag)
+    key = (A.shape, A.dtype.str, need_binary_or_dag, A.tobytes())
+    try:
+        return _DOM_CACHE[key]
+    except KeyError:
+        pass
+    r = _dom_uncached(A, need_binary_or_dag)
+    if len(_DOM_CACHE) > 64:
+        _DOM_CACHE.clear()
+    _DOM_CACHE[key] = r
+    return r
+
+
+def _dom_uncached(A, need_binary_or_dag=True):
     """Returns masks if A is inside the quantifier ("PDAG: binary with acyclic
     directed part, or DAG weight matrix"), else None."""
     if not isinstance(A, np.ndarray) or A.ndim != 2 or A.shape[0] != A.shape[1]:
@@ -36,7 +67,7 @@ def _dom(A, need_binary_or_dag=True):
         return None
     rows = A.tolist()
     p = len(rows)
-    if p > 12:
+    if p > 20:
         return None
     out = G.masks_from_rows(rows)
     for i in range(p):
@@ -105,7 +136,7 @@ def _mask_relation(name, which):
         k = _node(i, len(out))
         if k is None:
             return True
-        want = set(G.bits(getattr(G.Parts(out), which)[k]))
+        want = set(G.bits(getattr(_parts(out), which)[k]))
         got = _as_int_set(result)
         if got != want:
             return _viol("C15", name, "%s(%d) = %r, definition gives %s" % (name, k, result, sorted(want)),
@@ -140,7 +171,7 @@ def na_matches(y, x, A, result):
     yy, xx = _node(y, len(out)), _node(x, len(out))
     if yy is None or xx is None:
         return True
-    P = G.Parts(out)
+    P = _parts(out)
     want = set(G.bits(P.nb[yy] & P.adj[xx]))
     if _as_int_set(result) != want:
         return _viol("C15", "na", "na(%d,%d) = %r, definition gives %s" % (yy, xx, result, sorted(want)), matrix=A)
@@ -158,7 +189,7 @@ def _reach_relation(name, forward, include_self):
         k = _node(i, len(out))
         if k is None:
             return True
-        P = G.Parts(out)
+        P = _parts(out)
         succ = P.ch if forward else P.pa
         m = G.reach(succ, 1 << k)
         if not include_self:
@@ -191,7 +222,7 @@ def transitive_closure_matches(A, result):
     if not _sample():
         return True
     out = _dom(A)
-    if out is not None and any(G.Parts(out).nb):
+    if out is not None and any(_parts(out).nb):
         out = None      # only DAGs are in scope (others raise ValueError before the post-condition)
     _seen("transitive_closure", out)
     if out is None:
@@ -209,7 +240,7 @@ def semi_directed_paths_matches(fro, to, A, result):
     if not _sample():
         return True
     out = _dom(A, need_binary_or_dag=False)
-    if out is not None and len(out) > 8:
+    if out is not None and len(out) > 8 and G.n_edges(out) > 16:
         out = None
     _seen("semi_directed_paths", out)
     if out is None:
@@ -217,7 +248,7 @@ def semi_directed_paths_matches(fro, to, A, result):
     a, b = _node(fro, len(out)), _node(to, len(out))
     if a is None or b is None:
         return True
-    P = G.Parts(out)
+    P = _parts(out)
     succ = [P.ch[i] | P.nb[i] for i in range(P.p)]
     want = sorted(tuple(x) for x in G.simple_paths(succ, a, b))
     try:
@@ -249,7 +280,7 @@ def _separates_check(S, A, B, Gm, result):
         Bm = sum(1 << int(x) for x in B)
     except Exception:
         return True
-    P = G.Parts(out)
+    P = _parts(out)
     succ = [P.ch[i] | P.nb[i] for i in range(P.p)]
     reachable = G.reach(succ, Am, removed=Sm)
     want = not (reachable & Bm)
@@ -273,7 +304,7 @@ def _chain_component_check(i, Gm, result):
     k = _node(i, len(out))
     if k is None:
         return True
-    want = G.components(G.Parts(out).nb)[k]
+    want = G.components(_parts(out).nb)[k]
     if _as_int_set(result) != want:
         return _viol("C15", "chain_component", "chain_component(%d) = %r, undirected connectivity gives %s" % (k, result, sorted(want)),
                      matrix=Gm, node=k)
@@ -297,7 +328,7 @@ def _split_check(name, directed):
             return True
         rows = P.tolist()
         p = len(rows)
-        parts = G.Parts(out)
+        parts = _parts(out)
         sel = parts.ch if directed else parts.nb
         want = [[rows[i][j] if (sel[i] >> j) & 1 else 0 for j in range(p)] for i in range(p)]
         res = np.asarray(result)
@@ -323,7 +354,7 @@ def skeleton_matches(A, result):
     _seen("skeleton", out)
     if out is None:
         return True
-    parts = G.Parts(out)
+    parts = _parts(out)
     p = parts.p
     want = [[(parts.adj[i] >> j) & 1 for j in range(p)] for i in range(p)]
     res = np.asarray(result)
@@ -339,7 +370,7 @@ def undirected_edges_matches(P, result):
     _seen("undirected_edges", out)
     if out is None:
         return True
-    parts = G.Parts(out)
+    parts = _parts(out)
     want = sorted((i, j) for (i, j) in G.pairs(parts.p) if (parts.nb[i] >> j) & 1)
     try:
         got = sorted(tuple(sorted((int(a), int(b)))) for (a, b) in result)
@@ -357,7 +388,7 @@ def directed_edges_matches(A, result):
     _seen("directed_edges", out)
     if out is None:
         return True
-    parts = G.Parts(out)
+    parts = _parts(out)
     want = sorted((i, j) for i in range(parts.p) for j in G.bits(parts.ch[i]))
     try:
         got = sorted((int(a), int(b)) for (a, b) in result)
@@ -414,7 +445,7 @@ def moral_graph_matches(A, result):
     _seen("moral_graph", out)
     if out is None:
         return True
-    parts = G.Parts(out)
+    parts = _parts(out)
     p = parts.p
     m = list(parts.adj)
     for c in range(p):
@@ -468,7 +499,7 @@ def is_clique_matches(S, A, result):
         return True
     if any(not 0 <= v < len(out) for v in nodes):
         return True
-    parts = G.Parts(out)
+    parts = _parts(out)
     want = all((parts.adj[a] >> b) & 1 for a in nodes for b in nodes if a < b)
     if bool(result) != want:
         return _viol("C16", "is_clique", "is_clique(%s) = %r, skeleton says %s" % (nodes, result, want), matrix=A)
@@ -482,7 +513,7 @@ def is_complete_matches(P, result):
     _seen("is_complete", out)
     if out is None:
         return True
-    parts = G.Parts(out)
+    parts = _parts(out)
     want = all((parts.adj[i] >> j) & 1 for (i, j) in G.pairs(parts.p))
     if bool(result) != want:
         return _viol("C16", "is_complete", "is_complete = %r, skeleton says %s" % (result, want), matrix=P)
@@ -496,7 +527,7 @@ def degrees_matches(A, result):
     _seen("degrees", out)
     if out is None:
         return True
-    parts = G.Parts(out)
+    parts = _parts(out)
     want = [G.popcount(parts.adj[i]) for i in range(parts.p)]
     try:
         got = [int(x) for x in np.asarray(result).tolist()]
